@@ -97,6 +97,20 @@ fn run_case(line: &[u8], res: &mut String) {
             res.push_str("panic");
         }
     }
+    // every operation of the crate is a function of its arguments: the same case evaluated again, in the same process, must
+    // give the same observation (a memo keyed too coarsely, a static flag, interior mutability would show here)
+    let timed = matches!(sx.tagged(), Some(("rtime", _)) | Some(("vtime", _)));
+    if !timed && res != "panic" && res != "(badcase)" {
+        let mut again = String::new();
+        let same = match catch_unwind(AssertUnwindSafe(|| eval(&sx, &mut again))) {
+            Ok(Some(())) => again == *res,
+            _ => false,
+        };
+        if !same {
+            res.clear();
+            res.push_str("(inconsistent)");
+        }
+    }
 }
 
 // ---------------------------------------------------------------------------
